@@ -308,12 +308,18 @@ func (fr *Frame) topoOrder() []*ssa.BasicBlock {
 		post = append(post, b)
 	}
 	dfs(fn.Blocks[0])
-	if fn.Recover != nil && !visited[fn.Recover.Index] {
-		// recover block: processed as a separate entry after everything else
-		dfs(fn.Recover)
-	}
 	for i, j := 0, len(post)-1; i < j; i, j = i+1, j-1 {
 		post[i], post[j] = post[j], post[i]
+	}
+	if fn.Recover != nil && !visited[fn.Recover.Index] {
+		// recover block: a separate entry, processed after everything else
+		main := post
+		post = nil
+		dfs(fn.Recover)
+		for i, j := 0, len(post)-1; i < j; i, j = i+1, j-1 {
+			post[i], post[j] = post[j], post[i]
+		}
+		post = append(main, post...)
 	}
 	return post
 }
@@ -365,8 +371,13 @@ func (fr *Frame) block(b *ssa.BasicBlock, entryGuard string, entryHeap Heap, pos
 		reach = entryGuard
 		h = entryHeap.clone()
 	} else if fr.fn.Recover == b && len(edges) == 0 {
-		// recover entry: reachable from any panic inside the function; state unknown
-		reach = g.fresh(fr.prefix+"recover", "Bool")
+		// recover entry: reachable from a panic inside the function only if some deferred call
+		// can call recover(); the state there is unknown
+		if fr.mayRecover() {
+			reach = g.fresh(fr.prefix+"recover", "Bool")
+		} else {
+			reach = "false"
+		}
 		h = fr.havocAll(entryHeap)
 	} else {
 		reach = g.define(fr.prefix+fmt.Sprintf("reach%d", b.Index), "Bool", or(edges...))
@@ -558,6 +569,7 @@ func (fr *Frame) havocAll(h Heap) Heap {
 	nh["$alloc"] = na
 	g.nfresh++
 	nh["$epoch"] = fmt.Sprintf("h%d", g.nfresh)
+	g.epochAlloc[nh["$epoch"]] = na
 	return nh
 }
 
@@ -647,6 +659,10 @@ func (fr *Frame) havocLoop(li *loopInfo, h Heap) Heap {
 		return fr.havocAll(h)
 	}
 	nh := h.clone()
+	// allocation counter grows
+	oldAlloc := fr.allocOf(h)
+	na := g.fresh("$alloc", "Int")
+	g.defs = append(g.defs, fmt.Sprintf("(>= %s %s)", na, oldAlloc))
 	var names []string
 	for n := range targets {
 		names = append(names, n)
@@ -664,19 +680,20 @@ func (fr *Frame) havocLoop(li *loopInfo, h Heap) Heap {
 		cur := g.heapArr(h, n, srt)
 		if t.whole {
 			nh[n] = g.fresh(n, srt)
+			g.closureAxiomAt(n, nh[n], srt, na)
 			continue
 		}
 		// pointwise havoc at loop-invariant bases
 		elemSort := strings.TrimSuffix(strings.TrimPrefix(srt, "(Array Int "), ")")
 		for _, b := range uniq(t.bases) {
-			cur = fmt.Sprintf("(store %s %s %s)", cur, b, g.fresh(n+"$at", elemSort))
+			fv := g.fresh(n+"$at", elemSort)
+			if !strings.HasPrefix(elemSort, "(Array ") {
+				g.closedValue(n, fv, na)
+			}
+			cur = fmt.Sprintf("(store %s %s %s)", cur, b, fv)
 		}
 		nh[n] = g.define(n, srt, cur)
 	}
-	// allocation counter grows
-	old := fr.allocOf(h)
-	na := g.fresh("$alloc", "Int")
-	g.defs = append(g.defs, fmt.Sprintf("(>= %s %s)", na, old))
 	nh["$alloc"] = na
 	return nh
 }
@@ -786,6 +803,11 @@ func (fr *Frame) mapHeapNames(t types.Type) []string {
 func (g *Gen) mapArrNames(mt *types.Map) (string, string, string) {
 	k := sanitize(g.sortOf(mt.Key())) + "$" + sanitize(g.sortOf(mt.Elem()))
 	d, v, c := "MD$"+k, "MV$"+k, "MC$"+k
+	if rk := refKindOf(mt.Elem()); rk != "" {
+		if !(g.intMode && g.sortOf(mt.Key()) == "Int") {
+			g.heapRefKind[v] = rk
+		}
+	}
 	g.heapSort[d] = "(Array Int (Array " + g.sortOf(mt.Key()) + " Bool))"
 	g.heapSort[v] = "(Array Int (Array " + g.sortOf(mt.Key()) + " " + g.sortOf(mt.Elem()) + "))"
 	g.heapSort[c] = "(Array Int " + g.IS() + ")"
@@ -801,4 +823,33 @@ func (fr *Frame) seenName(r *ssa.Range) string {
 	fr.g.heapSort[n] = "(Array " + fr.g.sortOf(mt.Key()) + " Bool)"
 	fr.rangeSeen[r] = n
 	return n
+}
+
+// mayRecover: does any deferred call of this function (directly) call recover()?
+func (fr *Frame) mayRecover() bool {
+	for _, b := range fr.fn.Blocks {
+		for _, in := range b.Instrs {
+			d, ok := in.(*ssa.Defer)
+			if !ok {
+				continue
+			}
+			callee := d.Common().StaticCallee()
+			if callee == nil {
+				return true
+			}
+			if len(callee.Blocks) == 0 {
+				continue
+			}
+			for _, cb := range callee.Blocks {
+				for _, cin := range cb.Instrs {
+					if c, ok := cin.(*ssa.Call); ok {
+						if bi, ok := c.Common().Value.(*ssa.Builtin); ok && bi.Name() == "recover" {
+							return true
+						}
+					}
+				}
+			}
+		}
+	}
+	return false
 }
